@@ -814,29 +814,67 @@ class Emit:
 
     # ---- exception class relation
     def build_bases(self):
+        """class relation used by landing pads: name -> None | base name | list of base names (public bases only).
+        __si_class_type_info = {vtable, name, base}; __vmi_class_type_info = {vtable, name, flags, count, (base, offset_flags)*}
+        with offset_flags = offset << 8 | flags (1 = virtual, 2 = public). Catching through a base at a non-zero offset (or a
+        virtual base) needs a pointer adjustment the model does not do: such (type, base) pairs are recorded in
+        self.adjusted_bases and reaching one in a landing pad is reported as unmodelled, never silently mismatched."""
+        def glob(v):
+            while v.kind == 'cexpr':
+                v = v.ops[0]
+            return v.name[1:].strip('"') if v.kind == 'global' else None
         b = dict(STD_BASES)
+        self.adjusted_bases = set()
         for n, g in self.m.globals.items():
             nm = n[1:].strip('"')
             if nm.startswith('_ZTI') and g.init is not None and g.init.kind == 'cstruct' and len(g.init.els) >= 3:
-                base = g.init.els[2]
-                while base.kind == 'cexpr':
-                    base = base.ops[0]
-                if base.kind == 'global':
-                    b[nm] = base.name[1:].strip('"')
+                els = g.init.els
+                if glob(els[0]) == '_ZTVN10__cxxabiv121__vmi_class_type_infoE':
+                    lst = []
+                    for i in range(4, len(els) - 1, 2):
+                        bn = glob(els[i])
+                        of = int(els[i + 1].text) if els[i + 1].kind == 'num' else None
+                        if bn is None or of is None:
+                            raise TypeError('unsupported __vmi_class_type_info ' + nm)
+                        if not (of & 2):
+                            continue  # non-public base: not catchable
+                        lst.append(bn)
+                        if (of & 1) or (of >> 8) != 0:
+                            self.adjusted_bases.add((nm, bn))
+                    b[nm] = lst
+                else:
+                    base = glob(els[2])
+                    if base is not None:
+                        b[nm] = base
             elif nm.startswith('_ZTI') and nm not in b:
                 b.setdefault(nm, None)
         self.bases = b
 
-    def subclass_ids(self, catch_name):
-        """ids of all known types that are catch_name or derive from it"""
+    def direct_bases(self, n):
+        x = self.bases.get(n)
+        return [] if x is None else ([x] if isinstance(x, str) else list(x))
+
+    def ancestors(self, n):
+        """n and all its (public) bases, with a flag: reached through an edge that needs a pointer adjustment"""
+        out = {n: False}
+        work = [n]
+        while work:
+            x = work.pop()
+            for y in self.direct_bases(x):
+                adj = out[x] or ((x, y) in self.adjusted_bases)
+                if y not in out or (out[y] and not adj):
+                    out[y] = adj; work.append(y)
+        return out
+
+    def subclass_ids(self, catch_name, adjusted=False):
+        """ids of all known types that are catch_name or derive from it (adjusted=True: only those that reach it through
+        a base at non-zero offset / virtual base)"""
         out = []
         for n in self.bases:
-            x = n
-            while x is not None:
-                if x == catch_name:
-                    out.append(self.tyid(n)); break
-                x = self.bases.get(x)
-        if self.tyid(catch_name) not in out:
+            a = self.ancestors(n)
+            if catch_name in a and (not adjusted or a[catch_name]):
+                out.append(self.tyid(n))
+        if not adjusted and self.tyid(catch_name) not in out:
             out.append(self.tyid(catch_name))
         return out
 
@@ -927,6 +965,12 @@ class Emit:
         for n, g in m.globals.items():
             if n not in live or n.startswith('@llvm.') or hasattr(g, 'alias'): continue
             if g.init is None and self.gname(n) not in self.provided:
+                rt_ = self.resolve(g.ty)
+                if (re.match(r'@_ZTV(St|NSt)', n) and isinstance(rt_, StructT) and len(rt_.els) == 1 and isinstance(self.resolve(rt_.els[0]), ArrT)
+                        and self.resolve(rt_.els[0]).n == 5):
+                    # vtable of an external std exception class ([offset-to-top, typeinfo, D1, D0, what]): model entries from rt_model.c
+                    gdef.append('%s %s = {{{0, 0, (uint8_t*)&verif_std_exc_dtor, (uint8_t*)&verif_std_exc_dtor, (uint8_t*)&verif_std_exc_what}}}; /* external std exception vtable, model */' % (self.cty(g.ty), self.gname(n)))
+                    continue
                 gdef.append('%s %s; /* external object, zero model */' % (self.cty(g.ty), self.gname(n)))
         fbodies = fbodies + autostubs
         structs = self.emit_struct_defs()
@@ -1103,8 +1147,6 @@ class Emit:
             rt = T()
             if isinstance(rt, FuncT):
                 fty = rt; rt = fty.ret
-            elif isinstance(rt, PtrT) and isinstance(rt.to, FuncT) and p.peek()[0] in ('name', 'qname'):
-                fty = rt.to; rt = fty.ret
             else:
                 fty = None
             callee = V(PtrT(fty or FuncT(rt, [], False)))
@@ -1255,8 +1297,12 @@ class Emit:
             self.need_tmp('al%d' % n, self.cty(ins['aty']))
             return ['%s = &al%d;' % (R, n)]
         if op == 'load':
+            if ins.get('atomic'):
+                return ['%s = *(%s)verif_atomic_addr((uint8_t*)%s);' % (R, self.cty(o[0].ty), self.val(o[0]))]
             return ['%s = *%s;' % (R, self.val(o[0]))]
         if op == 'store':
+            if ins.get('atomic'):
+                return ['*(%s)verif_atomic_addr((uint8_t*)%s) = %s;' % (self.cty(o[1].ty), self.val(o[1]), self.val(o[0]))]
             return ['*%s = %s;' % (self.val(o[1]), self.val(o[0]))]
         if op == 'getelementptr':
             e, cur = self.gep(ins['base_ty'], o, [self.val(x) for x in o])
@@ -1303,21 +1349,29 @@ class Emit:
                     out.append('%s.f1 = %d;' % (R, self.tyid('__catch_all')))
                 else:
                     out.append('if (%s) %s.f1 = %d;' % (' || '.join('verif_exc_type == %d' % i for i in self.subclass_ids(nm)), R, self.tyid(nm)))
+                    adj = self.subclass_ids(nm, adjusted=True)
+                    if adj:
+                        # only when this clause is the one finally selected (an earlier clause naming the exact type wins)
+                        conds.append('if ((%s) && %s.f1 == %d) verif_unmodelled("catch through a base class at non-zero offset");' % (' || '.join('verif_exc_type == %d' % i for i in adj), R, self.tyid(nm)))
+            out += conds
             out.append('verif_exc_active = 0;')
             return out
         if op == 'resume':
             return ['verif_exc_active = 1; return %s;' % self.retzero]
         if op == 'atomicrmw':
             c = {'add': '+', 'sub': '-', 'and': '&', 'or': '|', 'xor': '^'}.get(ins['rop'])
-            pv = self.val(o[0]); bv = self.val(o[1])
+            pv = '((%s)verif_atomic_addr((uint8_t*)%s))' % (self.cty(o[0].ty), self.val(o[0])); bv = self.val(o[1])
+            self.need_tmp('at%d' % self.tmpn, self.cty(o[0].ty))
+            pre = 'at%d = %s; ' % (self.tmpn, pv); pv = 'at%d' % self.tmpn; self.tmpn += 1
             if ins['rop'] == 'xchg':
                 upd = bv
             else:
                 upd = self.mask('*%s %s %s' % (pv, c, bv), ins['ty'])
-            return ['__CPROVER_atomic_begin(); %s = *%s; *%s = %s; __CPROVER_atomic_end();' % (R, pv, pv, upd)]
+            return [pre + '__CPROVER_atomic_begin(); %s = *%s; *%s = %s; __CPROVER_atomic_end();' % (R, pv, pv, upd)]
         if op == 'cmpxchg':
-            pv = self.val(o[0])
-            return ['__CPROVER_atomic_begin(); %s.f0 = *%s; %s.f1 = (%s.f0 == %s); if (%s.f1) *%s = %s; __CPROVER_atomic_end();' % (R, pv, R, R, self.val(o[1]), R, pv, self.val(o[2]))]
+            self.need_tmp('at%d' % self.tmpn, self.cty(o[0].ty))
+            pre = 'at%d = (%s)verif_atomic_addr((uint8_t*)%s); ' % (self.tmpn, self.cty(o[0].ty), self.val(o[0])); pv = 'at%d' % self.tmpn; self.tmpn += 1
+            return [pre + '__CPROVER_atomic_begin(); %s.f0 = *%s; %s.f1 = (%s.f0 == %s); if (%s.f1) *%s = %s; __CPROVER_atomic_end();' % (R, pv, R, R, self.val(o[1]), R, pv, self.val(o[2]))]
         if op == 'fence':
             return ['__CPROVER_fence("WWfence", "RRfence", "RWfence", "WRfence");']
         if op in ('call', 'invoke'):
@@ -1384,6 +1438,12 @@ class Emit:
                     return as_(self.mask('%s < 0 ? -%s : %s' % (self.sx(a[0], t), self.sx(a[0], t), self.sx(a[0], t)), t))
                 x, y = (self.sx(a[0], t), self.sx(a[1], t)) if k[0] == 's' else (a[0], a[1])
                 return as_('(%s %s %s ? %s : %s)' % (x, '>' if k.endswith('max') else '<', y, a[0], a[1]))
+            m_ = re.match(r'(uadd|usub)\.sat\.', n)
+            if m_:  # unsigned saturating add/sub (clang -O1 forms them from `a > b ? a - b : 0`)
+                if m_.group(1) == 'usub':
+                    return as_('(%s > %s ? %s : 0)' % (a[0], a[1], self.mask('%s - %s' % (a[0], a[1]), t)))
+                s_ = self.mask('%s + %s' % (a[0], a[1]), t)
+                return as_('(%s < %s ? %s : %s)' % (s_, a[0], self.mask('~(%s)0' % self.cty(t), t), s_))
             if n.startswith('fabs'): return as_('fabs(%s)' % a[0])
             if n.startswith('fmuladd'): return as_('(%s * %s + %s)' % (a[0], a[1], a[2]))
             if n.startswith('va_start'):
